@@ -39,7 +39,7 @@ PROPS = {
     },
     "C13": entry(
         "A weak delete behaves like a delete for keys written once",
-        [ia("cstream", 3000, 100000), ib("weak", 400, 20000, blob=2, ops=60)],
+        [ia("cstream", 3000, 100000), ib("weak", 1500, 40000, blob=2, ops=60)],
         "I-A: generated merged multi-version inputs (weak tombstones in 70% of them), real CompactionStream vs model cstream incl. dropped-callback order; "
         "I-B: histories with weak-delete rounds on two keys obeying the single-delete discipline, every placement of tombstone vs value across memtables/levels; "
         "non-trivial = history with >= 1 version-changing compaction and >= 2 flushes (distinct digests)",
@@ -76,7 +76,7 @@ PROPS = {
         "7 C03"),
     "C05": entry(
         "A crash at any instant recovers to the state before or after the interrupted op",
-        [fsi("proto", "std", False, 1, 1), fsi("proto", "std", True, 1, 1), fsi("crash", "short", False, 3, 1, ["--thorough"]), fsi("crash", "short", True, 3, 1, ["--thorough"])],
+        [fsi("proto", "std", False, 1, 1), fsi("proto", "std", True, 1, 1), fsi("crash", "short", False, 2, 1, ["--thorough"]), {"args": ["fsinst.py", "crash", "--workload", "std"], "cases": {"quick": 0, "thorough": 0}, "tier_args": {"quick": ["--stride", "40"], "thorough": ["--stride", "1", "--thorough"]}, "timeout": {"quick": 1500, "thorough": 14400}}, fsi("crash", "short", True, 3, 1, ["--thorough"])],
         "I-C: (1) strace of a 16-operation workload (create, flushes, major, leveled, drop_range, reopen, ingest, clear; standard and key-value-separated): every operation's file-system actions abstracted to the model alphabet must be accepted by the Lean automaton acceptsFrom and be completed when the call returns; "
         "(2) the process is killed before every k-th mutating syscall (quick: stride 3 plus all rename / unlink / directory-fsync boundaries; thorough: every boundary, plus garbled and torn unsynced tails) and up to four adversarial persistence outcomes per point (unsynced data lost, unsynced directory entries lost, both) are opened with the real Config::open and compared with the logical states before / after the interrupted op; non-trivial = distinct (op, phase, outcome, result) classes",
         "Lean 4 theorem on the install-protocol automaton (crash atomicity for every accepted action sequence, every prefix, every POSIX crash outcome) + strace-based conformance of the real syscalls + crash-image enumeration opened by the real recovery code",
